@@ -31,7 +31,7 @@ func init() {
 		Level: "model_checking",
 		// generous internal deadline: the run takes 1-2 minutes on an idle machine and several times that next to other jobs
 		QuickBudget: 900,
-		Rule: "all histories of <=1 (thorough <=2) earlier programs followed by a program under test over an alphabet of 79 programs (incl. source files loaded by relative path - a module that raises, one that does not parse, a good one - and regular expressions whose texts share one symbol key) (incl. pairs that raise the same run-time error from different source positions, and programs that invite!/import the embedded and Go standard modules after defining variables) (define a variable, read it, shadow a built-in name, use a built-in, raise `_` on different lines, touch Either's abstract props, raise at depth 2, syntax error, intern new symbols via evalEnv, print, read stdin, iterate, user error, error inside native code, inspect built-in prototypes), " +
+		Rule: "all histories of <=1 (thorough <=2) earlier programs followed by a program under test over an alphabet of 81 programs (incl. source files loaded by relative path - a module that raises, one that does not parse, a good one - and regular expressions whose texts share one symbol key) (incl. pairs that raise the same run-time error from different source positions, and programs that invite!/import the embedded and Go standard modules after defining variables) (define a variable, read it, shadow a built-in name, use a built-in, raise `_` on different lines, touch Either's abstract props, raise at depth 2, syntax error, intern new symbols via evalEnv, print, read stdin, iterate, user error, error inside native code, inspect built-in prototypes), " +
 			"each history in a new process, under 2 reuse drivers (playground: one const env, one enclosed scope per program - the call sequence of web/wasm/executor.go; `pangaea test`: runscript.RunTest over a generated directory); " +
 			"oracle: (stdout, value, error message, stack trace) of the program under test equals its observation alone in a new process; states = histories, transitions = program evaluations; " +
 			"non-trivial = every history of length >=1; distinct = distinct (driver, history, program); round 8: The alphabet (68 programs) also has operations that fail part-way (caught) next to the same operations done plainly, and many failed deep calls next to a 9900-deep recursion.",
@@ -148,6 +148,9 @@ var alphabet = []prog{
 	{Name: "abstract-props-of-Either-called", Src: "[nil.try.{|u| Either.val}.err.msg, nil.try.{|u| Either.fmap {|x| x}}.err.msg, nil.try.{|u| Either.A}.err.msg, nil.try.{|u| Either.or(1)}.err.msg, nil.try.{|u| Either.err}.err.msg]"},
 	{Name: "own-abstract-method-caught", Src: "shape := {area: m{_}, name: m{\"shape\"}}\n[nil.try.{|u| shape.area}.err.msg, nil.try.{|u| _}.err.msg, shape.name]"},
 	{Name: "own-abstract-method-uncaught", Src: "shape := {area: m{_}}\nshape.area", Fails: true},
+	// calls written with empty parentheses followed by a function literal; empty parameter lists and empty calls
+	{Name: "trailing-literal-after-empty-parens", Src: "[[1, 2].map() {|x| x * 2}, {|| 1}.arity, {|a| a}()]"},
+	{Name: "empty-parameter-lists-and-empty-calls", Src: "f := {|| 7}\ng := {|a| a}\n[f.arity, f(), g(), {||}.arity, [3].map() {|v| v + 1}, {|| [\\0, \\_]}()]"},
 	{Name: "bear-patch-builtins", Src: "c := Int.bear({extra: 1})\nd := {a: 1}.patch(b: 2)\n[c['extra], Int['extra], d, Obj['b]]"},
 }
 
